@@ -56,6 +56,17 @@ def main():
             lines = [l for l in c.stdout.splitlines() if l.startswith("VIOLATION") or l.startswith("   clause")]
             res["checks"][pr] = {"exit": c.returncode, "alarm": c.returncode == 1,
                                  "first": lines[:4]}
+            if pr == prop and os.environ.get("SEED_REPLAY") and lines:
+                # the first replay artefact must reproduce on the changed tree and be silent on the unchanged one
+                import re
+                m = re.search(r"replay=(\S+)", lines[0])
+                if m:
+                    rp = m.group(1)
+                    c1 = sh(["./check", pr, "quick", "--replay", rp], env=env2, cwd=VERIF)
+                    c2 = sh(["./check", pr, "quick", "--replay", rp], env=dict(os.environ, PROVMC_OUT=env2["PROVMC_OUT"]), cwd=VERIF)
+                    res["replay"] = {"on_changed_tree_violations": c1.stdout.count("VIOLATION"),
+                                     "on_unchanged_tree_violations": c2.stdout.count("VIOLATION"),
+                                     "on_unchanged_tree_exit": c2.returncode}
     finally:
         sh("git -C %s checkout -- . && git -C %s clean -fdq" % (WT, WT))
     res["valid_seed"] = bool(res.get("baseline_ok") and res.get("demo_with_change_exit") == 1
